@@ -24,7 +24,9 @@ RULE = ("tables built through the public constructor PPTable(records, fields=, f
         "| + - ., blanks, non-ASCII, empty, long), header / footer absent, empty, short and longer than the table, "
         "multi-line titles (newline, blanks to strip, non-str items), record limits from the fmt and from limits= chosen "
         "around len(lines) = n_first + n_last + 1, plus rejected inputs (bad modifier, every column skipped, empty "
-        "title list).  Plus histories (400 quick / 4000 thorough): 1-3 such tables alive in one process, some sharing one "
+        "title list).  Plus 2 (thorough 6) LONG tables per run: 1100-1500 visible records (no limits, or limits above the "
+        "count), two columns of short values whose widest value sits after the 1000th record (column 0) / anywhere (column "
+        "1) and fits the column's maximum or has to be cut to it.  Plus histories (400 quick / 4000 thorough): 1-3 such tables alive in one process, some sharing one "
         "PPEnumFieldType object between fields / tables or being near copies of each other (same field names, other columns, "
         "widths, limits, records), and 4-25 calls on them: the whole table printed (str() of the no-colour rendering, or the "
         "coloured rendering with the colour sequences stripped) any number of times, line iterators iter(table.ch_text()) of "
@@ -1340,6 +1342,38 @@ def gen_table(rng, focus, shared=None):
     return case
 
 
+def gen_long(rng):
+    """a LONG table (more visible records than any sample / batch size a printer may use: 1100-1500), two
+    columns of short values, no record limits or limits above the count; the widest value of a column sits near the
+    end, it either fits into the column's configured maximum or has to be cut to exactly that maximum"""
+    n = rng.randint(1100, 1500)
+    nf = 2
+    fields = [{"name": f"f{i}", "title": rng.choice([None, {"items": ["m"], "single": True}]), "enum": None}
+              for i in range(nf)]
+    recs = [[rng.choice(["ok", "a", "", 1, 7, None]) if rng.random() < 0.1 else "ok" for _ in range(nf)] for _ in range(n)]
+    cols = []
+    for i in range(nf):
+        mx = rng.choice([6, 9, 14])
+        wide = rng.choice(["timeout", "node-17 down", "E" * 16, 1234567, "abcd"])
+        # column 0: after the 1000th record; column 1: anywhere (early only / in the middle / late)
+        recs[rng.randint(1001, n - 1) if i == 0 else rng.choice([rng.randint(0, 60), rng.randint(0, n - 1)])][i] = wide
+        if rng.random() < 0.5:
+            recs[rng.randint(n - 40, n - 1)][i] = rng.choice(["late", "x" * 20, -123456])
+        # column 0 always negotiates its width; its wide value fits the maximum (mx >= 9: shown in full) or not
+        cols.append({"f": i, "mod": None, "brk": False, "w": rng.choice([[1, mx], [0, mx], None, [mx]][:3 if i == 0 else 4])})
+    case = {"fields": fields, "cols": cols, "skip": None, "fmt_limits": None, "arg_limits": None,
+            "records": recs, "header": rng.choice([None, "T"]), "footer": None}
+    k = rng.randrange(3)
+    if k == 0:
+        case["fmt_limits"] = "*"
+    elif k == 1:
+        case["arg_limits"] = [n + rng.randint(0, 5), 0] if rng.random() < 0.5 else [1050, n - 1050 + rng.randint(0, 3)]
+    else:
+        case["fmt_limits"] = [1, 1]
+        case["arg_limits"] = [None, None]
+    return case
+
+
 # ------------------------------------------------------------------ generator of histories
 def _rand_cols(rng, fields, focus):
     cols = []
@@ -1520,6 +1554,8 @@ def gen_cases(rng, tier):
         cases.append(gen_table(rng, focuses[i % len(focuses)]))
     for i in range(300 if big else 15):
         cases.append(gen_table(rng, "big"))
+    for i in range(6 if big else 2):
+        cases.append(gen_long(rng))
     for i in range(6000 if big else 500):
         cases.append(gen_chunk_case(rng))
     hist = [gen_hist(rng) for i in range(4000 if big else 400)]
